@@ -125,9 +125,11 @@ def r11_2(ctx):
     none_edges = q.outcome_edges(fi, 'self.T is None', True)
     ok = bool(first) and all(cfg.nodes[b] in first for (a, b, l) in none_edges)
     ctx.ob('R11.2', 'step:first-call-opens-the-window', ok, fi, None, 'self.T = now when self.T is None')
-    nowdef = [v for (dn, t, v) in q.assigns(fi, 'now')]
-    ok = any(isinstance(v, ast.IfExp) and any(isinstance(x, ast.Call) and fi.callee(x) in CLOCKS for x in ast.walk(v))
-             for v in nowdef)
+    # read on the normal form `if now is None: now = monotonic()` (sa/normalize.py default_idiom)
+    nowdef = [(dn, v) for (dn, t, v) in q.assigns(fi, 'now')]
+    ok = bool(nowdef) and all(isinstance(v, ast.Call) and fi.callee(v) in CLOCKS and q.has_guard(fi, dn, 'now is None', True)
+                              for (dn, v) in nowdef) and \
+        all(cfg.nodes[b] in [dn for (dn, v) in nowdef] for (a, b, l) in q.outcome_edges(fi, 'now is None', True))
     ctx.ob('R11.2', 'step:now-defaults-to-the-clock', ok, fi, None, 'now = monotonic() if now is None else now')
     init = m.func('common:restart_state.__init__')
     a = {ast.unparse(t): ast.unparse(v) for (dn, t, v) in q.assigns(init, None) if v is not None}
